@@ -255,6 +255,39 @@ def create_rules(prog: Program, rep: Report) -> None:
                     out.append(unparse(n.value))
         return out
 
+    # which layout gets which: decided per path through the function
+    from ..paths import enumerate_paths as _ep
+    from ..program import positive_cond
+
+    seen_layout = {"dense": 0, "sparse": 0}
+    try:
+        paths_ = _ep(fi.node.body, max_paths=4000)
+    except Exception:  # noqa: BLE001
+        paths_ = []
+    bad_dim, bad_cnt = [], []
+    for p_ in paths_:
+        votes = set()
+        for t_, taken_ in p_.conds():
+            text_, pos_ = positive_cond(unparse(t_), taken_)
+            if text_ == "self.layout == 'dense'":
+                votes.add(pos_)
+            elif text_ == "self.layout == 'sparse'":
+                votes.add(not pos_)
+        if len(votes) != 1 or p_.exit == "raise":
+            continue  # no layout test on the path, or two tests answered differently (not a real path)
+        dense = votes.pop()
+        lay = "dense" if dense else "sparse"
+        seen_layout[lay] += 1
+        stmts_ = p_.stmts()
+        dims = [unparse(x.value) for x in stmts_ if isinstance(x, ast.Assign) and unparse(x.targets[0]) == "instance_dim" and not isinstance(x.value, ast.Name)]
+        if dims and dims[-1] != ("('time', 'particle')" if dense else "('particle_instance',)"):
+            bad_dim.append(f"{lay}: {dims[-1]}")
+        has_cnt = any(isinstance(c_, ast.Call) and isinstance(c_.func, ast.Attribute) and c_.func.attr == "createVariable" and c_.args and isinstance(c_.args[0], ast.Constant) and c_.args[0].value == "particle_count" for x in stmts_ for c_ in ast.walk(x))
+        if has_cnt == dense:
+            bad_cnt.append(f"{lay}: particle_count {'created' if has_cnt else 'missing'}")
+    if seen_layout["dense"] and seen_layout["sparse"]:
+        rep.check("R06.2", fi.qual, "dense files get [time, particle] instance variables, sparse files the ragged dimension", not bad_dim, what_bad=f"{sorted(set(bad_dim))}: the instance variables of a layout are created on the dimensions of the other", what_ok="dims by layout", loc=fi.loc())
+        rep.check("R06.2", fi.qual, "particle_count is created for the sparse layout only", not bad_cnt, what_bad=f"{sorted(set(bad_cnt))}: readers rebuild the records of a sparse file from particle_count", what_ok="sparse only", loc=fi.loc())
     vals = sorted(values_of("instance_dim"))
     rep.check("R06.2", fi.qual, "instance_dim = (time, particle) when dense, (particle_instance,) when sparse", vals == ["('particle_instance',)", "('time', 'particle')"], what_bad=f"{vals}", what_ok="ok", loc=fi.loc())
 
